@@ -6,22 +6,434 @@ Open Scope N_scope.
 
 Definition nofail (l : lexer) : Prop := False.
 
+Ltac fin := b2p; gs; unfold len in *; lia.
+Ltac sstep :=
+  match goal with
+  | |- safe (bind (idx ?l ?i) _) _ _ => apply idx_safe; [b2p; gs; try lia | intros ?c ?Hc]
+  | |- safe (bind (idx_is ?l ?i ?c) _) _ _ => apply idx_is_safe; [b2p; gs; try lia | intros ?x ?Hx]
+  | |- safe (bind (andm ?a _) _) _ _ => apply andm_safe; intros ?Ha
+  | |- safe (bind (orm ?a _) _) _ _ => apply orm_safe; intros ?Ha
+  | |- safe (bind (bind _ _) _) _ _ => rewrite bind_assoc
+  | |- safe (bind (Ok _) _) _ _ => rewrite bind_ok
+  | |- safe (bind (if ?b then _ else _) _) _ _ => destruct b eqn:?
+  | |- safe (if ?b then _ else _) _ _ => destruct b eqn:?
+  | |- safe (bind (Err _) _) _ _ => simpl
+  end.
+
 Section ScanProofs.
 Variable U : unitab.
 Variable noshow : bool.
 Variable text : bytes.
 
-Lemma lex_delim_safe typ1 n endt typ2 l :
-  INV text l -> 1 <= n -> n <= len l ->
-  safe (let* l1 := emitc typ1 n l in let* l2 := lex_code U endt l1 in emitc typ2 n l2) (prog text l) (ext text l)
-  \/ True.
-Proof. auto. Qed.
+Lemma closing_len endt l n :
+  endt = gen_tokenEOF \/ closing endt l ->
+  (endt = gen_tokenRightBraces /\ n = 2) \/ (endt = gen_tokenEndStatement /\ n = 2) \/ (endt = gen_tokenEndStatements /\ n = 3) ->
+  n <= len l.
+Proof.
+  intros [He|Hc] H.
+  - subst. destruct H as [[H _]|[[H _]|[H _]]]; discriminate.
+  - unfold closing in Hc. destruct H as [[-> ->]|[[-> ->]|[-> ->]]]; exact Hc.
+Qed.
 
-(* the closing delimiter is emitted only if it is there: lexCode returned nil
-   in front of it.  Here we only need that emitc cannot fault, which requires
-   n bytes: this is what the returns of code_body guarantee. *)
-Definition at_close (endt : N) (l : lexer) : Prop :=
-  (endt = gen_tokenRightBraces -> 2 <= len l) /\
-  (endt = gen_tokenEndStatement -> 2 <= len l) /\
-  (endt = gen_tokenEndStatements -> 3 <= len l).
+Lemma lex_delim_safe typ1 n endt typ2 l :
+  (endt = gen_tokenRightBraces /\ n = 2) \/ (endt = gen_tokenEndStatement /\ n = 2) \/ (endt = gen_tokenEndStatements /\ n = 3) ->
+  INV text l -> n <= len l ->
+  safe (let* l1 := emitc typ1 n l in let* l2 := lex_code U endt l1 in emitc typ2 n l2) (prog text l) (ext text l).
+Proof.
+  intros Hn Hi Hl. assert (1 <= n) by (destruct Hn as [[_ ->]|[[_ ->]|[_ ->]]]; lia).
+  destruct (emitc_spec text typ1 n l Hi Hl) as (l1 & H1 & Hi1 & Hb1 & _). rewrite H1, bind_ok.
+  eapply safe_bind.
+  - eapply safe_mono; [apply lex_code_safe; exact Hi1|intros a Ha; exact Ha|].
+    intros l2 [Hi2 He2]. split; [exact Hi2|lia].
+  - intros l2 [He2 Hc2]. pose proof (closing_len endt l2 n Hc2 Hn) as Hl2.
+    destruct (emitc_spec text typ2 n l2 (proj1 He2) Hl2) as (l3 & H3 & Hi3 & Hb3 & _). rewrite H3. simpl.
+    split; [exact Hi3|]. destruct He2 as [_ He2]. lia.
+Qed.
+
+Lemma lex_show_safe l : INV text l -> 2 <= len l -> safe (lex_show U l) (prog text l) (ext text l).
+Proof. intros. apply lex_delim_safe; auto. Qed.
+Lemma lex_statement_safe l : INV text l -> 2 <= len l -> safe (lex_statement U l) (prog text l) (ext text l).
+Proof. intros. apply lex_delim_safe; auto. Qed.
+Lemma lex_statements_safe l : INV text l -> 3 <= len l -> safe (lex_statements U l) (prog text l) (ext text l).
+Proof. intros. apply lex_delim_safe; auto. Qed.
+
+(* counting lines and columns over a range of the source *)
+Lemma count_range_ok n i l :
+  i + N.of_nat n <= len l -> exists l', count_range n i l = Ok l' /\ same_core l l'.
+Proof.
+  revert i l. induction n as [|n IH]; intros i l H; [exists l; split; [reflexivity|auto with sc]|].
+  simpl. destruct (idx_ok l i ltac:(lia)) as (c & Hc & _). rewrite Hc, bind_ok.
+  set (l1 := if c =? 10 then newline l else if isStartChar c then addcol 1 l else l).
+  assert (Hs : same_core l l1) by (unfold l1; destruct (c =? 10); [|destruct (isStartChar c)]; auto with sc).
+  destruct (IH (i + 1) l1) as (l' & H' & Hs'); [rewrite (same_core_len _ _ Hs); lia|].
+  exists l'. split; [exact H'|eapply same_core_trans; eauto].
+Qed.
+
+(* ---- comments ---- *)
+Lemma lex_comment_safe l : INV text l -> 2 <= len l -> safe (lex_comment l) (prog text l) (ext text l).
+Proof.
+  intros Hi Hl. assert (He : ext text l l) by (apply ext_refl; exact Hi). unfold lex_comment.
+  eapply safe_bind.
+  - apply (safe_loop (comment_body l) (fun st => 2 <= snd st /\ snd st <= len l)
+             (fun st => N.to_nat (len l - snd st)) (fun st => 2 <= snd st /\ snd st <= len l)) with (E := ext text l).
+    + intros [nest1 p] [H1 H2]. simpl in H1, H2. unfold comment_body.
+      destruct (nest1 =? 0); [simpl; lia|].
+      destruct (N.ltb_spec (len l) p); [lia|].
+      destruct (index_byte (drop p (l_src l)) 35) as [i|] eqn:Ei; [|simpl; exact He].
+      pose proof (index_byte_bound _ _ _ Ei) as Hib. rewrite nlen_drop in Hib. fold (len l) in Hib.
+      repeat sstep; simpl; b2p; lia.
+    + simpl. lia.
+    + apply len_fuel.
+  - intros [nest1 p] [H1 H2]. simpl in H1, H2.
+    assert (Hia : INV text (addcol 4 l)) by (eapply same_core_INV; [|exact Hi]; auto with sc).
+    destruct (count_range_ok (N.to_nat (p - 2 - 2)) 2 (addcol 4 l)) as (l2 & Hc & Hs2).
+    { change (len (addcol 4 l)) with (len l). lia. }
+    rewrite Hc, bind_ok.
+    set (l3 := if l_line l2 =? l_line (addcol 4 l) then l2 else mark_cdev l2).
+    assert (Hs3 : same_core l l3).
+    { eapply same_core_trans; [apply sc_addcol|]. eapply same_core_trans; [exact Hs2|].
+      unfold l3. destruct (_ =? _); auto with sc. }
+    assert (Hi3 : INV text l3) by (eapply same_core_INV; eauto).
+    destruct (emit_at_spec text (l_line l) (l_col l) (l_cdev l) (l_ldev l) gen_tokenComment p l3 Hi3) as (l4 & H4 & Hi4 & Hb4 & _).
+    { rewrite (same_core_len _ _ Hs3). exact H2. }
+    rewrite H4. simpl. split; [exact Hi4|]. destruct Hs3 as (_ & Hb3 & _). lia.
+Qed.
+
+(* ---- raw blocks ---- *)
+Lemma sget_safe s i {B} (k : N -> res B) Q E :
+  i < nlen s -> (forall c, get s i = Some c -> safe (k c) Q E) -> safe (bind (sget s i) k) Q E.
+Proof.
+  intros Hi Hk. unfold sget. destruct (get_lt _ _ Hi) as [c Hc]. rewrite Hc. simpl. apply Hk, Hc.
+Qed.
+Lemma sget_is_safe s i c {B} (k : bool -> res B) Q E :
+  i < nlen s -> (forall b, safe (k b) Q E) -> safe (bind (sget_is s i c) k) Q E.
+Proof.
+  intros Hi Hk. unfold sget_is. rewrite bind_assoc. apply sget_safe; [exact Hi|]. intros x _. simpl. apply Hk.
+Qed.
+
+Lemma skip_raw_spaces_safe s p :
+  p <= nlen s -> safe (skip_raw_spaces U s p) (fun q => p <= q /\ q <= nlen s) nofail.
+Proof.
+  intros Hp. unfold skip_raw_spaces.
+  apply (safe_loop (raw_space_body U s) (fun q => p <= q /\ q <= nlen s) (fun q => N.to_nat (nlen s - q))
+           (fun q => p <= q /\ q <= nlen s)).
+  - intros q [H1 H2]. unfold raw_space_body. destruct (N.ltb_spec q (nlen s)); [|simpl; lia].
+    destruct (decode_rune (drop q s)) as [r w] eqn:Hd.
+    destruct (decode_rune_width _ _ _ (drop_nonempty _ _ H) Hd) as [Hw1 Hw2].
+    assert (N.of_nat (length (drop q s)) = nlen s - q) by (rewrite <- nlen_eq; apply nlen_drop).
+    match goal with |- context [if ?b then _ else _] => destruct b end; simpl; lia.
+  - lia.
+  - rewrite nlen_eq. lia.
+Qed.
+
+Ltac rstep :=
+  match goal with
+  | |- safe (bind (sget_is ?s ?i ?c) _) _ _ => apply sget_is_safe; [b2p; try lia | intros ?b]
+  | |- safe (bind (sget ?s ?i) _) _ _ => apply sget_safe; [b2p; try lia | intros ?c ?Hc]
+  | |- safe (bind (skip_raw_spaces _ ?s ?p) _) _ _ =>
+      eapply safe_bind; [apply skip_raw_spaces_safe; b2p; try lia | intros ?i [?Hi1 ?Hi2]]
+  | _ => sstep
+  end.
+
+Lemma end_raw_body_safe s marker st :
+  fst st <= nlen s ->
+  safe (end_raw_body U s marker st)
+       (fun r => match r with
+                 | Again s' => fst st < fst s' /\ fst s' <= nlen s
+                 | Stop s' => match snd s' with Some p => p < nlen s | None => True end end) nofail.
+Proof.
+  destruct st as [i0 o]. simpl. intros H0. unfold end_raw_body.
+  destruct (N.ltb_spec i0 (nlen s)); cbn [negb]; [|simpl; exact I].
+  destruct (index_byte (drop i0 s) 123) as [j|] eqn:Ej; [|simpl; exact I].
+  pose proof (index_byte_bound _ _ _ Ej) as Hj. rewrite nlen_drop in Hj.
+  assert (Hp : i0 + j < nlen s) by lia.
+  assert (Hnext : safe (Ok (Again (i0 + j + 1, @None N)))
+     (fun r : step (N * option N) => match r with
+                 | Again s' => i0 < fst s' /\ fst s' <= nlen s
+                 | Stop s' => match snd s' with Some p => p < nlen s | None => True end end) nofail) by (simpl; lia).
+  cbv zeta.
+  repeat (first [rstep | progress cbn beta iota]; try exact Hnext; try (exfalso; b2p; lia)).
+  all: try (simpl; b2p; lia).
+Qed.
+
+Lemma end_raw_index_safe s marker :
+  safe (end_raw_index U s marker) (fun r => match r with Some p => p < nlen s | None => True end) nofail.
+Proof.
+  unfold end_raw_index. eapply safe_bind.
+  - apply (safe_loop (end_raw_body U s marker) (fun st => fst st <= nlen s) (fun st => N.to_nat (nlen s - fst st))
+             (fun st => match snd st with Some p => p < nlen s | None => True end)).
+    + intros st Hst. eapply safe_mono; [apply end_raw_body_safe; exact Hst| |auto].
+      intros [s'|s']; [intros [H1 H2]; split; [exact H2|lia]|auto].
+    + simpl. lia.
+    + simpl. rewrite nlen_eq. lia.
+  - intros [i r] Hr. simpl. exact Hr.
+Qed.
+
+Lemma skip_raw_content_safe l m :
+  l_raw l = Some m ->
+  safe (skip_raw_content U l) (fun r => same_core l (fst r) /\ snd r <= len l) nofail.
+Proof.
+  intros Hm. unfold skip_raw_content. rewrite Hm.
+  eapply safe_bind; [apply end_raw_index_safe|]. intros [p|] Hp.
+  - destruct (p =? 0); [simpl; split; [auto with sc|lia]|].
+    destruct (count_range_ok (N.to_nat p) 0 l) as (l1 & H1 & Hs1); [unfold len; lia|].
+    rewrite H1. simpl. split; [exact Hs1|unfold len; lia].
+  - destruct (count_range_ok (length (l_src l)) 0 l) as (l1 & H1 & Hs1); [unfold len; rewrite nlen_eq; lia|].
+    rewrite H1. simpl. split; [exact Hs1|lia].
+Qed.
+
+(* ---- Markdown code blocks ---- *)
+Lemma scan_code_block_safe l p :
+  p <= len l -> safe (scan_code_block l p) (fun r => p <= fst r /\ fst r <= len l) nofail.
+Proof.
+  intros Hp. unfold scan_code_block. repeat sstep; simpl; b2p; lia.
+Qed.
+
+Lemma apply_code_block_safe l p :
+  p <= len l -> safe (apply_code_block l p) (fun r => same_core l (fst r) /\ p <= snd r /\ snd r <= len l) nofail.
+Proof.
+  intros Hp. unfold apply_code_block. eapply safe_bind; [apply scan_code_block_safe; exact Hp|].
+  intros [q cx] [H1 H2]. simpl in *. split; [|lia]. destruct (p <? q); repeat split.
+Qed.
+
+(* ---- tags ---- *)
+Lemma scan_tag_safe l p :
+  p <= len l ->
+  safe (scan_tag U l p) (fun r => same_core l (fst (fst r)) /\ p <= snd r /\ snd r <= len l) nofail.
+Proof.
+  intros Hp. unfold scan_tag.
+  eapply safe_bind with (Q' := fun isa => isa = true -> p < len l).
+  - destruct (N.eqb_spec p (len l)); [simpl; discriminate|]. sstep. simpl. intros _. lia.
+  - intros isa Hisa. destruct isa; cbn [negb]; [|simpl; split; [auto with sc|lia]].
+    specialize (Hisa eq_refl). eapply safe_bind.
+    + apply (safe_loop tag_body (fun st => same_core l (fst st) /\ p < snd st /\ snd st <= len l)
+               (fun st => N.to_nat (len l - snd st)) (fun st => same_core l (fst st) /\ p < snd st /\ snd st <= len l)).
+      * intros [l1 q] (Hs & H1 & H2). simpl in Hs, H1, H2. unfold tag_body.
+        pose proof (same_core_len _ _ Hs) as Hl1.
+        destruct (N.ltb_spec q (len l1)); cbn [negb]; [|simpl; auto].
+        sstep. destruct ((c =? 62) || (c =? 47) || isASCIISpace c || (c =? 123)); [simpl; auto|].
+        destruct (c <? 128).
+        { simpl. split; [split; [eapply same_core_trans; [exact Hs|auto with sc]|lia]|lia]. }
+        destruct (decode_rune (drop q (l_src (addcol 1 l1)))) as [r w] eqn:Hd.
+        assert (Hq : q < len (addcol 1 l1)) by (change (len (addcol 1 l1)) with (len l1); lia).
+        destruct (decode_at _ q r w Hq Hd) as [Hw1 Hw2]. change (len (addcol 1 l1)) with (len l1) in Hw2.
+        simpl. split; [split; [|lia]|lia].
+        eapply same_core_trans; [exact Hs|]. destruct (isStartChar c); repeat split.
+      * simpl. split; [auto with sc|lia].
+      * simpl. change (len (addcol 1 l)) with (len l). apply len_fuel.
+    + intros [l1 q] (Hs & H1 & H2). simpl in Hs, H1, H2.
+      destruct (N.ltb_spec (len l) q); [lia|]. simpl. split; [exact Hs|lia].
+Qed.
+
+(* ---- attributes ---- *)
+Definition attrI (l : lexer) (p : N) (l1 : lexer) (q : N) : Prop := same_core l l1 /\ p <= q /\ q <= len l.
+
+Lemma attr_name_body_safe l p st :
+  attrI l p (fst (fst st)) (snd (fst st)) ->
+  safe (attr_name_body U st)
+    (fun r => match r with
+              | Again s' => attrI l p (fst (fst s')) (snd (fst s')) /\ snd (fst st) < snd (fst s')
+              | Stop s' => attrI l p (fst (fst s')) (snd (fst s')) end) nofail.
+Proof.
+  destruct st as [[l1 q] b]. simpl. intros (Hs & H1 & H2). unfold attr_name_body.
+  pose proof (same_core_len _ _ Hs) as Hl1.
+  assert (HI : attrI l p l1 q) by (repeat split; auto; apply Hs).
+  destruct (N.ltb_spec q (len l1)); cbn [negb]; [|simpl; exact HI].
+  sstep. destruct ((c =? 61) || isASCIISpace c); [simpl; exact HI|].
+  match goal with |- context [if ?b then Ok (Stop (l1, q, true)) else _] => destruct b end; [simpl; exact HI|].
+  eapply safe_bind with (Q' := fun r => match r with Some p1 => q <= p1 /\ p1 < len l1 | None => True end).
+  - destruct (128 <=? c); [|simpl; lia].
+    destruct (decode_rune (drop q (l_src l1))) as [r w] eqn:Hd.
+    destruct (decode_at _ q r w H Hd) as [Hw1 Hw2].
+    destruct ((r =? rune_error) && Nat.eqb w 1); [simpl; exact I|].
+    destruct (((127 <=? r) && (r <=? 159)) || u_nonchar U r); simpl; [exact I|lia].
+  - intros [p1|] Hp1; [|simpl; exact HI]. destruct Hp1 as [Hq1 Hq2].
+    assert (HI1 : attrI l p l1 p1) by (unfold attrI; repeat split; try apply Hs; lia).
+    repeat sstep; simpl; try exact HI1.
+    all: split; [|lia]; unfold attrI; split; [eapply same_core_trans; [exact Hs|auto with sc]|lia].
+Qed.
+
+Lemma attr_sp_body_safe mode l p st :
+  attrI l p (fst (fst st)) (snd (fst st)) ->
+  safe (attr_sp_body mode st)
+    (fun r => match r with
+              | Again s' => attrI l p (fst (fst s')) (snd (fst s')) /\ snd (fst st) < snd (fst s')
+              | Stop s' => attrI l p (fst (fst s')) (snd (fst s')) end) nofail.
+Proof.
+  destruct st as [[l1 q] b]. simpl. intros (Hs & H1 & H2). unfold attr_sp_body.
+  pose proof (same_core_len _ _ Hs) as Hl1.
+  assert (HI : attrI l p l1 q) by (repeat split; auto; apply Hs).
+  destruct (N.ltb_spec q (len l1)); cbn [negb]; [|simpl; exact HI].
+  sstep.
+  repeat match goal with |- context [if ?b then Ok _ else _] => destruct b end; simpl; try exact HI.
+  - unfold attrI. split; [eapply same_core_trans; [exact Hs|auto with sc]|lia].
+  - split; [|lia]. unfold attrI. split; [eapply same_core_trans; [exact Hs|]|lia]. destruct (c =? 10); auto with sc.
+Qed.
+
+Lemma attr_loop_safe {T} (body : lexer * N * T -> res (step (lexer * N * T))) l p (b0 : T) l1 q :
+  (forall st, attrI l p (fst (fst st)) (snd (fst st)) ->
+     safe (body st)
+       (fun r => match r with
+              | Again s' => attrI l p (fst (fst s')) (snd (fst s')) /\ snd (fst st) < snd (fst s')
+              | Stop s' => attrI l p (fst (fst s')) (snd (fst s')) end) nofail) ->
+  attrI l p l1 q ->
+  safe (loop (S (length (l_src l))) body (l1, q, b0)) (fun s' => attrI l p (fst (fst s')) (snd (fst s'))) nofail.
+Proof.
+  intros Hb HI.
+  apply (safe_loop body (fun st => attrI l p (fst (fst st)) (snd (fst st)))
+           (fun st => N.to_nat (len l - snd (fst st)))).
+  - intros st Hst. eapply safe_mono; [apply Hb; exact Hst| |auto].
+    intros [s'|s']; [|auto]. intros [Ha Hlt]. split; [exact Ha|]. destruct Ha as (_ & _ & Ha). destruct Hst as (_ & _ & Hst). lia.
+  - exact HI.
+  - simpl. apply len_fuel.
+Qed.
+
+Lemma scan_attribute_safe l p :
+  p <= len l ->
+  safe (scan_attribute U l p) (fun r => same_core l (fst (fst r)) /\ p <= snd r /\ snd r <= len l) nofail.
+Proof.
+  intros Hp. unfold scan_attribute. cbv zeta.
+  eapply safe_bind; [apply (attr_loop_safe (attr_name_body U) l p); [apply attr_name_body_safe|repeat split; auto; lia]|].
+  intros [[l1 p1] ret] HI1. simpl in HI1. destruct ret; [simpl; exact HI1|].
+  destruct ((p1 =? p) || (p1 =? len l)); [simpl; exact HI1|].
+  destruct (N.ltb_spec (len l) p1); [destruct HI1 as (_ & _ & ?); lia|].
+  eapply safe_bind; [apply (attr_loop_safe (attr_sp_body 0) l p); [apply attr_sp_body_safe|exact HI1]|].
+  intros [[l2 p2] k2] HI2. simpl in HI2. destruct (k2 =? 2); [simpl; exact HI2|].
+  eapply safe_bind; [apply (attr_loop_safe (attr_sp_body 1) l p); [apply attr_sp_body_safe|exact HI2]|].
+  intros [[l3 p3] k3] HI3. simpl in HI3. destruct (k3 =? 2); [simpl; exact HI3|].
+  destruct (p3 =? len l); simpl; exact HI3.
+Qed.
+
+(* ---- the main loop ---- *)
+Definition MI (st : mst) : Prop :=
+  INV text (m_l st) /\ m_p st <= len (m_l st) /\ l_tidx (m_l st) <= m_p st.
+(* absolute position of the scan *)
+Definition apos (st : mst) : N := l_base (m_l st) + m_p st.
+Definition is_attr (cx : N) : bool := (cx =? gen_ContextQuotedAttr) || (cx =? gen_ContextUnquotedAttr).
+(* the measure: twice the bytes left, plus one while inside an attribute value *)
+Definition mu (st : mst) : N :=
+  2 * (nlen text - apos st) + (if is_attr (l_ctx (m_l st)) then 1 else 0).
+
+Lemma MI_apos st : MI st -> apos st <= nlen text.
+Proof. intros (Hi & Hp & _). pose proof (INV_len _ _ Hi). unfold apos. lia. Qed.
+
+(* outcome of the context specific part of an iteration *)
+Definition swpost (st : mst) (r : mst * bool) : Prop :=
+  MI (fst r) /\
+  if snd r then apos st < apos (fst r)
+                \/ (apos (fst r) = apos st /\ is_attr (l_ctx (m_l st)) = true /\ is_attr (l_ctx (m_l (fst r))) = false)
+  else apos st <= apos (fst r) /\ m_p (fst r) < len (m_l (fst r)).
+
+Lemma MI_same st l' p' :
+  MI st -> same_core (m_l st) l' -> m_p st <= p' -> p' <= len l' -> MI (mset_lp l' p' st).
+Proof.
+  intros (Hi & Hp & Ht) Hs H1 H2. unfold MI. cbn. split; [eapply same_core_INV; eauto|].
+  destruct Hs as (_ & Hb & _). split; lia.
+Qed.
+
+Lemma emit_text_spec st l :
+  INV text l -> m_p st <= len l ->
+  exists l1, emit_text st l = Ok l1 /\ INV text l1 /\ (l_base l1 = l_base l + m_p st /\ l_tidx l1 = l_tidx l - m_p st)
+             /\ len l1 = len l - m_p st /\ l_ctx l1 = l_ctx l /\ l_src l1 = drop (m_p st) (l_src l).
+Proof.
+  intros Hi Hp. unfold emit_text.
+  destruct (emit_at_spec text (m_lin st) (m_col st) (m_lcd st) (m_lld st) gen_tokenText (m_p st) l Hi Hp)
+    as (l1 & H1 & Hi1 & Hb1 & Hs1 & Hl1 & _ & _ & _ & _ & Hc1 & _).
+  exists l1. auto 10.
+Qed.
+
+Lemma flush_text_spec st :
+  MI st ->
+  exists l1, flush_text st = Ok l1 /\ INV text l1 /\ (l_base l1 = apos st /\ l_tidx l1 = 0)
+             /\ len l1 = len (m_l st) - m_p st /\ l_ctx l1 = l_ctx (m_l st)
+             /\ l_src l1 = drop (m_p st) (l_src (m_l st)).
+Proof.
+  intros (Hi & Hp & Ht). unfold flush_text, apos. destruct (N.ltb_spec 0 (m_p st)).
+  - destruct (emit_text_spec st (m_l st) Hi Hp) as (l1 & H1 & Hi1 & Hb1 & Hl1 & Hc1 & Hs1).
+    exists l1. split; [exact H1|]. split; [exact Hi1|]. split; [lia|]. split; [exact Hl1|split; [exact Hc1|exact Hs1]].
+  - exists (m_l st). split; [reflexivity|]. split; [exact Hi|]. split; [lia|]. split; [lia|split; [reflexivity|]].
+    replace (m_p st) with 0 by lia. reflexivity.
+Qed.
+
+Lemma MI_resync st0 l : INV text l -> l_tidx l = 0 -> MI (resync l st0).
+Proof. intros Hi Ht. unfold MI. cbn. split; [exact Hi|lia]. Qed.
+
+Lemma emit0_spec typ l :
+  INV text l -> exists l1, emit typ 0 l = Ok l1 /\ INV text l1 /\ (l_base l1 = l_base l /\ l_tidx l1 = l_tidx l)
+                             /\ len l1 = len l /\ l_ctx l1 = l_ctx l /\ l_src l1 = l_src l.
+Proof.
+  intros Hi. destruct (emit_spec text typ 0 l Hi ltac:(lia)) as (l1 & H1 & Hi1 & Hb1 & Hs1 & Hl1 & _ & _ & _ & _ & Hc1 & _).
+  exists l1. split; [exact H1|]. split; [exact Hi1|]. split; [lia|]. split; [lia|split; [exact Hc1|exact Hs1]].
+Qed.
+
+(* Markdown URLs *)
+Lemma md_url_safe st :
+  MI st -> m_p st < len (m_l st) -> safe (md_url st) (swpost st) nofail.
+Proof.
+  intros HM Hp. pose proof HM as (Hi & Hp' & Ht). unfold md_url.
+  assert (Hstay : swpost st (st, false)) by (split; [exact HM|simpl; lia]).
+  destruct (m_url st).
+  - destruct (isMarkdownEndURL (drop (m_p st) (l_src (m_l st)))); [|simpl; exact Hstay].
+    destruct (flush_text_spec st HM) as (l1 & H1 & Hi1 & Hb1 & Hl1 & Hc1 & Hs1). rewrite H1, bind_ok.
+    destruct (emit0_spec gen_tokenEndURL l1 Hi1) as (l2 & H2 & Hi2 & Hb2 & Hl2 & Hc2 & Hs2). rewrite H2. simpl.
+    split; [apply MI_resync; [exact Hi2|lia]|]. unfold apos in *. cbn. lia.
+  - eapply safe_bind with (Q' := fun _ => True).
+    { destruct (m_p st =? 0); [simpl; exact I|]. sstep. simpl. exact I. }
+    intros okprev _.
+    destruct (okprev && isMarkdownStartURL (drop (m_p st) (l_src (m_l st)))) eqn:Eok; [|simpl; exact Hstay].
+    apply andb_prop in Eok. destruct Eok as [_ Eok].
+    assert (Hlen : 7 <= len (m_l st) - m_p st).
+    { unfold isMarkdownStartURL in Eok. apply orb_prop in Eok.
+      destruct Eok as [E|E]; apply has_prefix_len in E; rewrite nlen_drop in E; fold (len (m_l st)) in E;
+        [change (nlen gen_lex_https) with 8 in E|change (nlen gen_lex_http) with 7 in E]; lia. }
+    destruct (flush_text_spec st HM) as (l1 & H1 & Hi1 & Hb1 & Hl1 & Hc1 & Hs1). rewrite H1, bind_ok.
+    destruct (emit0_spec gen_tokenStartURL l1 Hi1) as (l2 & H2 & Hi2 & Hb2 & Hl2 & Hc2 & Hs2). rewrite H2, bind_ok.
+    sstep.
+    assert (H8 : c = 115 -> 8 <= len (m_l st) - m_p st).
+    { intros ->. unfold isMarkdownStartURL in Eok. apply orb_prop in Eok. destruct Eok as [E|E].
+      - apply has_prefix_len in E. rewrite nlen_drop in E. exact E.
+      - exfalso. rewrite Hs2, Hs1 in Hc. revert E Hc. generalize (drop (m_p st) (l_src (m_l st))). intros s0.
+        destruct s0 as [|a0 [|a1 [|a2 [|a3 [|a4 s5]]]]]; try discriminate.
+        unfold get. simpl. intros E Hc. injection Hc as ->. repeat (apply andb_prop in E; destruct E as [? E]). discriminate. }
+    simpl. split.
+    + unfold MI. cbn. split; [eapply same_core_INV; [|exact Hi2]; auto with sc|].
+      change (len (mark_cdev l2)) with (len l2). destruct (N.eqb_spec c 115); [specialize (H8 e)|]; lia.
+    + left. unfold apos in *. cbn. destruct (c =? 115); lia.
+Qed.
+
+Lemma swpost_stay st : MI st -> m_p st < len (m_l st) -> swpost st (st, false).
+Proof. intros HM Hp. split; [exact HM|simpl; lia]. Qed.
+
+(* '<' in HTML and Markdown *)
+Lemma html_lt_safe st c :
+  MI st -> m_p st < len (m_l st) -> safe (html_lt U st c) (swpost st) nofail.
+Proof.
+  intros HM Hp. pose proof HM as (Hi & Hp' & Ht). unfold html_lt.
+  destruct (negb (c =? 60)); [simpl; apply swpost_stay; assumption|]. cbv zeta.
+  sstep; [sstep; destruct (_ && has_prefix _ _) eqn:Ecd|cbn [andb]].
+  1: (* CDATA *)
+    set (p6 := m_p st + 6); set (l6 := addcol 6 (m_l st));
+    set (t := match index (drop p6 (l_src l6)) gen_lex_cdataEnd with None => len l6 | Some i => p6 + i + 2 end);
+    assert (Ht6 : t <= len (m_l st)) by
+      (unfold t; change (len l6) with (len (m_l st));
+       destruct (index (drop p6 (l_src l6)) gen_lex_cdataEnd) eqn:Ei; [|lia];
+       apply index_bound in Ei; rewrite nlen_drop in Ei; change (nlen gen_lex_cdataEnd) with 3 in Ei;
+       change (nlen (l_src l6)) with (len (m_l st)) in Ei; b2p; lia);
+    destruct (count_range_ok (N.to_nat (t - p6)) p6 l6) as (l1 & H1 & Hs1);
+      [change (len l6) with (len (m_l st)); b2p; unfold p6 in *; lia|];
+    rewrite H1; simpl; b2p; split;
+      [apply MI_same; [exact HM|eapply same_core_trans; [apply sc_addcol|exact Hs1]| |
+         rewrite (same_core_len _ _ Hs1); change (len l6) with (len (m_l st))]; unfold p6 in *; lia
+      |left; unfold apos; cbn; destruct Hs1 as (_ & Hb & _); cbn in Hb; unfold p6 in *; lia].
+  all: (eapply safe_bind; [apply scan_tag_safe; change (len (addcol 1 (m_l st))) with (len (m_l st)); lia|]);
+    intros [[l1 name] q] (Hs & H1 & H2); simpl in Hs, H1, H2;
+    change (len (addcol 1 (m_l st))) with (len (m_l st)) in H2;
+    match goal with |- context [mset_lp ?l3 _ _] => set (L3 := l3) end;
+    (assert (Hs3 : same_core (m_l st) L3) by
+       (eapply same_core_trans; [apply sc_addcol|]; eapply same_core_trans; [exact Hs|];
+        unfold L3; destruct (nonempty name); [destruct (bytes_eqb name s_script); [|destruct (bytes_eqb name s_style)]|];
+        repeat split));
+    simpl; split; [apply MI_same; [exact HM|exact Hs3|lia|rewrite (same_core_len _ _ Hs3); lia]
+                  |left; unfold apos; cbn; destruct Hs3 as (_ & Hb & _); lia].
+Qed.
 End ScanProofs.
